@@ -76,11 +76,16 @@ def drop_empty_image_outcomes(ctx, outs):
     """Ok outcomes reached only for an image without pixels (path condition contains width == 0 or height == 0 of the
     input) say nothing about any pixel: an early `if w == 0 { return .. }` must not make the per-pixel rules see 'two
     successful outcomes'.  They are dropped when another successful outcome exists."""
+    def dims_product(a):
+        # a width / height symbol of the input, or a product of such (w * h == 0 means a factor is zero)
+        if a.op == 'sym': return isinstance(a.args[0], str) and a.args[0].endswith(('.width', '.height'))
+        if a.op == 'imul': return all(isinstance(z, X.E) and dims_product(z) for z in a.args)
+        return False
     def empty(s):
         for c in s.pc:
             if c.op == 'eq':
                 for a, b in ((c.args[0], c.args[1]), (c.args[1], c.args[0])):
-                    if b.is_const and b.val == 0 and a.op == 'sym' and isinstance(a.args[0], str) and a.args[0].endswith(('.width', '.height')):
+                    if b.is_const and b.val == 0 and dims_product(a):
                         return True
         return False
     ok = lambda v: (not isinstance(v, EnumV)) or is_ok(ctx.crate, v)
